@@ -19,10 +19,17 @@ Code anchors (/repo/src/mici):
 * `glBFwdJac`, `glCFwdJac`, `glCAdjJac`, `glBAdjJac`, `genLeapfrogJac`
                               — `ImplicitLeapfrogIntegrator._step_b_fwd/_step_c_fwd/_step_c_adj/
                                 _step_b_adj/_step` (integrators.py:493-545) on a quadratic `h2`
-* `cotProj`, `cotProjJac`, `conStepAJac`, `conStepBJac`, `conLeapfrogJac`
+* `glDh2Dpos`, `glDh2Dmom`, `glBFwdEq`, `glCFwd`, `glCAdjEq`, `glBAdj`
+                              — the same four sub-steps as maps / fixed-point equations
+* `cotProject`, `gramR`, `cotProjJac`
                               — `ConstrainedEuclideanMetricSystem.project_onto_cotangent_space`
-                                (systems.py:867-877), `ConstrainedLeapfrogIntegrator._step_a/_step_b/
-                                _step` (integrators.py:947-984) for a LINEAR constraint `C q = d`
+                                (systems.py:867-877) for a LINEAR constraint `C q = d`
+* `retract`, `retrJac`        — `_h2_flow_retraction_onto_manifold` (integrators.py:929-942) with
+                                the exact solution of the projection equation (solvers.py:436-462:
+                                for a linear constraint one Newton iteration is exact)
+* `conStepAJac`, `conStepBJac`, `conLeapfrogJac`
+                              — `ConstrainedLeapfrogIntegrator._step_a/_step_b/_step`
+                                (integrators.py:947-984)
 -/
 import MiciVerif.Model.Integrators
 import Mathlib.Data.Matrix.Block
@@ -129,56 +136,128 @@ def genLeapfrogJac (τ : K) (H₀ H₁ Sqq Sqp Spp W V : Mat n K) : Mat2 n K :=
   kickJac τ H₁ * (glBAdjJac τ Sqq Sqp * (glCAdjJac τ Spp V * (glCFwdJac τ Sqp Spp *
     (glBFwdJac τ Sqq W * kickJac τ H₀))))
 
-/-! ### Constrained leapfrog with a LINEAR constraint `C q = d` (`jacob_constr = C` constant) -/
+/-- `dh2_dpos` of the quadratic `h2`. -/
+def glDh2Dpos (Sqq Sqp : Mat n K) (x : Phase n K) : Fin n → K :=
+  Sqq.mulVec x.1 + Sqp.mulVec x.2
 
-/-- `project_onto_cotangent_space` as a matrix: `1 − Cᵀ G⁻¹ C N`, `Ginv = inv_gram = (C N Cᵀ)⁻¹`. -/
-def cotProj {m : Nat} (C : Matrix (Fin m) (Fin n) K) (N : Mat n K)
-    (Ginv : Matrix (Fin m) (Fin m) K) : Mat n K :=
-  1 - Cᵀ * Ginv * C * N
+/-- `dh2_dmom` of the quadratic `h2`. -/
+def glDh2Dmom (Sqp Spp : Mat n K) (x : Phase n K) : Fin n → K :=
+  Sqpᵀ.mulVec x.1 + Spp.mulVec x.2
 
-/-- Jacobian of `(q, p) ↦ (q, Π p)`. -/
+/-- `_step_b_fwd`: the returned momentum `p'` is a fixed point of
+`mom ↦ mom_init - time_step * dh2_dpos(pos, mom)`. -/
+def glBFwdEq (τ : K) (Sqq Sqp : Mat n K) (x : Phase n K) (p' : Fin n → K) : Prop :=
+  p' = x.2 - τ • glDh2Dpos Sqq Sqp (x.1, p')
+
+/-- `_step_c_fwd`: `pos += time_step * dh2_dmom(state)`. -/
+def glCFwd (τ : K) (Sqp Spp : Mat n K) (x : Phase n K) : Phase n K :=
+  (x.1 + τ • glDh2Dmom Sqp Spp x, x.2)
+
+/-- `_step_c_adj`: the returned position `q'` is a fixed point of
+`pos ↦ pos_init + time_step * dh2_dmom(pos, mom)`. -/
+def glCAdjEq (τ : K) (Sqp Spp : Mat n K) (x : Phase n K) (q' : Fin n → K) : Prop :=
+  q' = x.1 + τ • glDh2Dmom Sqp Spp (q', x.2)
+
+/-- `_step_b_adj`: `mom -= time_step * dh2_dpos(state)`. -/
+def glBAdj (τ : K) (Sqq Sqp : Mat n K) (x : Phase n K) : Phase n K :=
+  (x.1, x.2 - τ • glDh2Dpos Sqq Sqp x)
+
+/-! ### Constrained leapfrog with a LINEAR constraint `C q = d` (`jacob_constr = C` constant)
+
+`N = metric.inv`, `Ginv = inv_gram = (C N Cᵀ)⁻¹`, `R = gramR C Ginv = Cᵀ Ginv C`; the cotangent
+projector is `Π = 1 − R N`. -/
+
+/-- `Cᵀ (C N Cᵀ)⁻¹ C`. -/
+def gramR {m : Nat} (C : Matrix (Fin m) (Fin n) K) (Ginv : Matrix (Fin m) (Fin m) K) : Mat n K :=
+  Cᵀ * Ginv * C
+
+/-- `project_onto_cotangent_space`:
+`mom -= jacob_constr.T @ (inv_gram @ (jacob_constr @ (metric.inv @ mom)))`. -/
+def cotProject {m : Nat} (C : Matrix (Fin m) (Fin n) K) (N : Mat n K)
+    (Ginv : Matrix (Fin m) (Fin m) K) (p : Fin n → K) : Fin n → K :=
+  p - Cᵀ.mulVec (Ginv.mulVec (C.mulVec (N.mulVec p)))
+
+/-- Jacobian of `(q, p) ↦ (q, P p)`. -/
 def cotProjJac (P : Mat n K) : Mat2 n K := fromBlocks 1 0 0 P
 
-/-- `ConstrainedLeapfrogIntegrator._step_a`: `h1_flow` then projection of the momentum. -/
-def conStepAJac (t : K) (H P : Mat n K) : Mat2 n K := cotProjJac P * kickJac t H
+/-- `_h2_flow_retraction_onto_manifold` for the Euclidean `h2_flow` and a linear constraint, with the
+projection equation solved exactly: after `h2_flow` the solver accumulates
+`mu = Cᵀ (C |t| N Cᵀ)⁻¹ (C pos − d)`, sets `pos -= |t| N mu` and `mom -= sign(t) mu`;
+here `ν = |t| mu = Cᵀ Ginv (C pos − d)` and `sign(t) / |t| = t⁻¹`. -/
+def retract {m : Nat} (C : Matrix (Fin m) (Fin n) K) (d : Fin m → K) (N : Mat n K)
+    (Ginv : Matrix (Fin m) (Fin m) K) (t : K) (x : Phase n K) : Phase n K :=
+  let y := drift N.mulVec t x
+  let ν := Cᵀ.mulVec (Ginv.mulVec (C.mulVec y.1 - d))
+  (y.1 - N.mulVec ν, y.2 - t⁻¹ • ν)
 
-/-- One inner iteration of `_step_b` for a linear constraint and a momentum in the cotangent
-space: `h2_flow` (the retraction finds `λ = 0` since `C (q + t N p) = d` already), then projection
-of the momentum. -/
-def conStepBJac (t : K) (N P : Mat n K) : Mat2 n K := cotProjJac P * driftJac t N
+/-- Jacobian of `retract` in the ambient space (`R = gramR C Ginv`). -/
+def retrJac (t : K) (N R : Mat n K) : Mat2 n K :=
+  fromBlocks (1 - N * R) (t • (N * (1 - R * N))) (-(t⁻¹ • R)) (1 - R * N)
+
+/-- `ConstrainedLeapfrogIntegrator._step_a`: `h1_flow` then projection of the momentum. -/
+def conStepAJac (t : K) (H N R : Mat n K) : Mat2 n K := cotProjJac (1 - R * N) * kickJac t H
+
+/-- One inner iteration of `_step_b`: retraction, then projection of the momentum. -/
+def conStepBJac (t : K) (N R : Mat n K) : Mat2 n K := cotProjJac (1 - R * N) * retrJac t N R
 
 /-- Jacobian of `ConstrainedLeapfrogIntegrator._step` (`n_inner_step = k`, inner time step `ti`,
-`τ = time_step / 2`). -/
-def conLeapfrogJac (τ ti : K) (k : Nat) (H₀ H₁ N P : Mat n K) : Mat2 n K :=
-  conStepAJac τ H₁ P * ((conStepBJac ti N P) ^ k * conStepAJac τ H₀ P)
+`τ = time_step / 2`; `H₀`, `H₁` Hessians of `h1` at the initial and final positions). -/
+def conLeapfrogJac (τ ti : K) (k : Nat) (H₀ H₁ N R : Mat n K) : Mat2 n K :=
+  conStepAJac τ H₁ N R * ((conStepBJac ti N R) ^ k * conStepAJac τ H₀ N R)
 
 end
 
-/-! ### Evaluation helper for the driver -/
+/-! ### Evaluation helpers for the driver
 
-/-- Materialise a `2n × 2n` matrix into arrays (provably the identity, see `forceMat2_eq`). -/
-def forceMat2 {n : Nat} {α : Type*} (M : Matrix (Fin n ⊕ Fin n) (Fin n ⊕ Fin n) α) :
-    Matrix (Fin n ⊕ Fin n) (Fin n ⊕ Fin n) α :=
-  let a := force (fun i => force (fun j => M (Sum.inl i) (Sum.inl j)))
-  let b := force (fun i => force (fun j => M (Sum.inl i) (Sum.inr j)))
-  let c := force (fun i => force (fun j => M (Sum.inr i) (Sum.inl j)))
-  let d := force (fun i => force (fun j => M (Sum.inr i) (Sum.inr j)))
-  Matrix.of fun i j =>
-    match i, j with
-    | Sum.inl i, Sum.inl j => a i j
-    | Sum.inl i, Sum.inr j => b i j
-    | Sum.inr i, Sum.inl j => c i j
-    | Sum.inr i, Sum.inr j => d i j
+Vectors and matrices are functions, so iterated flows build towers of closures whose evaluation
+cost is exponential in the number of flows unless intermediate results are materialised.  A
+definition of the shape `def force v : Fin n → α := let a := Array.ofFn v; fun i => a[i]` does NOT
+achieve this: the compiler eta-expands it to arity 2 and recomputes the array on every access.
+The working pattern used here: a `@[noinline]` function returning a structure with TWO relevant
+fields (a one-field structure is represented as the field itself) that holds closures over the
+arrays, and a `@[macro_inline]` projection wrapper, so that call sites evaluate the boxing function
+strictly, once. All helpers are provably the identity. -/
 
-theorem forceMat2_eq {n : Nat} {α : Type*} (M : Matrix (Fin n ⊕ Fin n) (Fin n ⊕ Fin n) α) :
-    forceMat2 M = M := by
-  ext i j
-  rcases i with i | i <;> rcases j with j | j <;> simp [forceMat2, force_eq]
+/-- A value together with a dummy tag (prevents the one-field-structure representation). -/
+structure Box (β : Type*) where
+  val : β
+  tag : Nat
 
-/-- Materialise a lifted state. -/
-def forceT {n : Nat} {K : Type*} (s : TState n K) : TState n K := (force2 s.1, forceMat2 s.2)
+@[noinline] def vecBox {n : Nat} {α : Type*} (v : Fin n → α) : Box (Fin n → α) :=
+  let a := Array.ofFn v
+  ⟨fun i => a[i.1]'(by simp [a]), a.size⟩
+
+/-- Materialise a vector (use instead of `force`). -/
+@[macro_inline] def forceV {n : Nat} {α : Type*} (v : Fin n → α) : Fin n → α := (vecBox v).val
+
+theorem forceV_eq {n : Nat} {α : Type*} (v : Fin n → α) : forceV v = v := by
+  funext i; simp [forceV, vecBox]
+
+@[noinline] def tBox {n : Nat} {K : Type*} (s : TState n K) : Box (TState n K) :=
+  let q := Array.ofFn s.1.1
+  let p := Array.ofFn s.1.2
+  let a := Array.ofFn fun i : Fin n => Array.ofFn fun j : Fin n => s.2 (Sum.inl i) (Sum.inl j)
+  let b := Array.ofFn fun i : Fin n => Array.ofFn fun j : Fin n => s.2 (Sum.inl i) (Sum.inr j)
+  let c := Array.ofFn fun i : Fin n => Array.ofFn fun j : Fin n => s.2 (Sum.inr i) (Sum.inl j)
+  let d := Array.ofFn fun i : Fin n => Array.ofFn fun j : Fin n => s.2 (Sum.inr i) (Sum.inr j)
+  ⟨((fun i => q[i.1]'(by simp [q]), fun i => p[i.1]'(by simp [p])),
+    fun i j =>
+      match i, j with
+      | Sum.inl i, Sum.inl j => (a[i.1]'(by simp [a]))[j.1]'(by simp [a])
+      | Sum.inl i, Sum.inr j => (b[i.1]'(by simp [b]))[j.1]'(by simp [b])
+      | Sum.inr i, Sum.inl j => (c[i.1]'(by simp [c]))[j.1]'(by simp [c])
+      | Sum.inr i, Sum.inr j => (d[i.1]'(by simp [d]))[j.1]'(by simp [d])),
+    q.size⟩
+
+/-- Materialise a lifted state; wrap every lifted flow as `fun t s => forceT (kickT g H t s)`. -/
+@[macro_inline] def forceT {n : Nat} {K : Type*} (s : TState n K) : TState n K := (tBox s).val
 
 theorem forceT_eq {n : Nat} {K : Type*} (s : TState n K) : forceT s = s := by
-  simp [forceT, force2_eq, forceMat2_eq]
+  obtain ⟨⟨q, p⟩, D⟩ := s
+  refine Prod.ext (Prod.ext ?_ ?_) ?_
+  · funext i; simp [forceT, tBox]
+  · funext i; simp [forceT, tBox]
+  · funext i j
+    rcases i with i | i <;> rcases j with j | j <;> simp [forceT, tBox]
 
 end MiciVerif.Integrators
